@@ -137,6 +137,29 @@ theorem PolyMod.fullPeriod [Fintype σ] [DecidableEq σ] (c : PolyMod T P n) (od
 
 end
 
+namespace FullPeriod
+variable {σ : Type} [XorSpace σ] {T : σ → σ} {n : Nat}
+
+theorem iter_zero_state (h : FullPeriod T n) (k : Nat) : iter T k (zero : σ) = zero := by
+  induction k with
+  | zero => rfl
+  | succ k ih => rw [iter_succ, ih, h.map_zero]
+
+/-- a non-zero state never reaches the all-zero state -/
+theorem iter_ne_zero (h : FullPeriod T n) {s : σ} (hs : s ≠ zero) (k : Nat) :
+    iter T k s ≠ zero := fun hk =>
+  hs (iter_injective h.bijective.1 k (hk.trans (h.iter_zero_state k).symm))
+
+/-- the state sequence of a non-zero state does not repeat before `2^n - 1` steps -/
+theorem no_repeat (h : FullPeriod T n) {s : σ} (hs : s ≠ zero) {i j : Nat} (hij : i < j)
+    (hj : j < 2 ^ n - 1) : iter T i s ≠ iter T j s := by
+  intro he
+  obtain ⟨d, rfl⟩ := Nat.exists_eq_add_of_le (Nat.le_of_lt hij)
+  rw [iter_add] at he
+  exact h.minimal s hs d (by omega) (by omega) (iter_injective h.bijective.1 i he).symm
+
+end FullPeriod
+
 /-! ## the state spaces are finite of the right size -/
 
 /-- `BitVec w ≃ Fin (2^w)` (Mathlib has no `Fintype (BitVec w)` instance) -/
@@ -172,6 +195,7 @@ theorem card_S4 (w : Nat) : Fintype.card (S4 w) = 2 ^ (4 * w) := by
     ← Nat.pow_add, ← Nat.pow_add, ← Nat.pow_add]
   congr 1; omega
 
+set_option exponentiation.threshold 600 in
 theorem card_S8 : Fintype.card S8 = 2 ^ 512 := by
   rw [Fintype.ofEquiv_card, Fintype.card_prod, Fintype.card_prod, Fintype.card_prod,
     Fintype.card_prod, card_bitVec, ← Nat.pow_add, ← Nat.pow_add, ← Nat.pow_add, ← Nat.pow_add]
